@@ -190,6 +190,10 @@ func add(a, b string) string {
 	if a == "0" {
 		return b
 	}
+	// a + (X - a) = X : keeps array indices free of arithmetic when quantifying over absolute positions
+	if strings.HasPrefix(b, "(- ") && strings.HasSuffix(b, " "+a+")") {
+		return strings.TrimSuffix(strings.TrimPrefix(b, "(- "), " "+a+")")
+	}
 	return "(+ " + a + " " + b + ")"
 }
 
@@ -249,6 +253,7 @@ type Ctx struct {
 	defs     map[string]string
 	inlineCache map[string]Val
 	inContract int
+	sorts map[string]string
 }
 
 type structInfo struct {
@@ -261,7 +266,7 @@ type structInfo struct {
 
 func newCtx(g *Global) *Ctx {
 	c := &Ctx{g: g, declared: map[string]bool{}, accIndex: map[string]accInfo{}, structs: map[string]*structInfo{},
-		heapSorts: map[string]bool{}, litStr: map[string]string{}, cntDefs: map[string]string{}, trusted: map[string]bool{}, unspecified: map[string]bool{}, notes: map[string]bool{}, defs: map[string]string{}, inlineCache: map[string]Val{}}
+		heapSorts: map[string]bool{}, litStr: map[string]string{}, cntDefs: map[string]string{}, trusted: map[string]bool{}, unspecified: map[string]bool{}, notes: map[string]bool{}, defs: map[string]string{}, inlineCache: map[string]Val{}, sorts: map[string]string{}}
 	c.accIndex["s.ref"] = accInfo{"mkSlice", 0, 4}
 	c.accIndex["s.off"] = accInfo{"mkSlice", 1, 4}
 	c.accIndex["s.len"] = accInfo{"mkSlice", 2, 4}
@@ -304,6 +309,7 @@ func sanitize(s string) string {
 func (c *Ctx) freshConst(hint, sort string) string {
 	n := c.freshName(hint)
 	c.declare(n, fmt.Sprintf("(declare-fun %s () %s)", n, sort))
+	c.sorts[n] = sort
 	return n
 }
 
